@@ -33,7 +33,16 @@ fn build_config(n: &BuildNode) -> BuildConfig {
     } else {
         BuildConfig::new(c.builder.clone(), app)
     };
-    cfg.buildpacks(c.buildpacks.iter().map(|b| BuildpackReference::Other(b.clone())).collect::<Vec<_>>());
+    let mut refs: Vec<BuildpackReference> = c.buildpacks.iter().map(|b| BuildpackReference::Other(b.clone())).collect();
+    if let Some((at, by_id)) = c.own_buildpack {
+        let own = if by_id {
+            BuildpackReference::WorkspaceBuildpack(simcore::e4::OWN_BUILDPACK_ID.parse().expect("buildpack id"))
+        } else {
+            BuildpackReference::CurrentCrate
+        };
+        refs.insert(at.min(refs.len()), own);
+    }
+    cfg.buildpacks(refs);
     for (k, v) in &c.env {
         cfg.env(k.clone(), v.clone());
     }
